@@ -474,6 +474,7 @@ func c14Check(ctx *Ctx, idx int, cs *c14Case) {
 	run, err := c14Execute(cs)
 	if err != nil {
 		ctx.Rep.Fail(hx.Failure{Kind: "harness-error", Detail: err.Error(), Case: cs, Index: idx})
+		flushReport(ctx)
 		return
 	}
 	hits, expiries := 0, 0
@@ -536,6 +537,7 @@ func c14Check(ctx *Ctx, idx int, cs *c14Case) {
 			ctx.Rep.Count("plain gateway itself not deterministic on this history (not counted)")
 		} else {
 			ctx.Rep.Fail(hx.Failure{Kind: "property-fails", Detail: run.Problems[0] + c14Blame(cs, run), Case: cs, Impl: run, Index: idx})
+			flushReport(ctx)
 		}
 	}
 	// ---- impl vs model
@@ -631,6 +633,7 @@ func c14CheckSequential(ctx *Ctx, idx int, cs *c14Case, run *c14Run) {
 	res, err := ctx.Driver.Call(map[string]interface{}{"op": "c14.history", "ttl": cs.TTLns, "reqs": c14DriverReqs(cs, run.Obs)})
 	if err != nil {
 		ctx.Rep.Fail(hx.Failure{Kind: "harness-error", Detail: err.Error(), Case: cs, Index: idx})
+		flushReport(ctx)
 		return
 	}
 	ctx.Rep.Traces++
@@ -638,12 +641,14 @@ func c14CheckSequential(ctx *Ctx, idx int, cs *c14Case, run *c14Run) {
 	served, _ := res["served"].([]interface{})
 	if len(mhits) != len(run.Obs) {
 		ctx.Rep.Fail(hx.Failure{Kind: "model-mismatch", Detail: "model answered a different number of requests", Case: cs, Impl: run, Model: res, Index: idx})
+		flushReport(ctx)
 		return
 	}
 	for i, o := range run.Obs {
 		mh, _ := mhits[i].(bool)
 		if mh == o.Miss {
 			ctx.Rep.Fail(hx.Failure{Kind: "model-mismatch", Detail: fmt.Sprintf("step %d `%s`: wrapped planner called=%v but Model.Cache says hit=%v", o.Step, cs.Pool[o.Op].Query, o.Miss, mh), Case: cs, Impl: run, Model: res, Index: idx})
+			flushReport(ctx)
 			return
 		}
 		// where the implementation deviates from the plain twin, the model must have served a
@@ -665,6 +670,7 @@ func c14CheckSequential(ctx *Ctx, idx int, cs *c14Case, run *c14Run) {
 		}
 		if deviates && !foreign {
 			ctx.Rep.Fail(hx.Failure{Kind: "model-mismatch", Detail: fmt.Sprintf("step %d `%s`: the cached gateway deviates from the plain one but Model.Cache serves the request its own intact plan", o.Step, cs.Pool[o.Op].Query), Case: cs, Impl: run, Model: res, Index: idx})
+			flushReport(ctx)
 			return
 		}
 	}
@@ -697,11 +703,13 @@ func c14CheckBurst(ctx *Ctx, idx int, cs *c14Case, run *c14Run) {
 	res, err := ctx.Driver.Call(map[string]interface{}{"op": "c14.explore", "ttl": 1 << 40, "warm": warm, "reqs": c14DriverReqs(cs, burst)})
 	if err != nil {
 		ctx.Rep.Fail(hx.Failure{Kind: "harness-error", Detail: err.Error(), Case: cs, Index: idx})
+		flushReport(ctx)
 		return
 	}
 	ctx.Rep.Traces++
 	if b, ok := res["bad"].(string); ok && b != "" {
 		ctx.Rep.Fail(hx.Failure{Kind: "model-mismatch", Detail: "lock-level model: " + b, Case: cs, Model: res, Index: idx})
+		flushReport(ctx)
 		return
 	}
 	want := make([]bool, len(burst))
@@ -726,6 +734,7 @@ func c14CheckBurst(ctx *Ctx, idx int, cs *c14Case, run *c14Run) {
 		}
 	}
 	ctx.Rep.Fail(hx.Failure{Kind: "model-mismatch", Detail: fmt.Sprintf("observed hit vector %v of the concurrent burst is not a final outcome of the lock-level model", want), Case: cs, Impl: run, Model: res, Index: idx})
+	flushReport(ctx)
 }
 
 // ---------------------------------------------------------------------------------------------
